@@ -53,31 +53,22 @@ func vc06Use(b *Bitmap) (stage string, pv interface{}) {
 	return "", nil
 }
 
-func vc06ErrClass(err error) string {
-	if err == nil {
-		return "accepted"
-	}
-	s := err.Error()
-	if len(s) > 28 {
-		s = s[:28]
-	}
-	return "rejected:" + s
-}
-
 func TestVerifC06_UnmarshalBinary(t *testing.T) {
 	defer vkit.Flush()
 	rapid.Check(t, func(t *rapid.T) {
 		data, label, seed, unmutated := vc06GenPayload(t)
 		c := vkit.NewCase().Key("unmarshal", data)
 		defer c.Done()
-		c.Class("mut:" + label)
+		for _, cl := range vc06LabelClasses(label) {
+			c.Class(cl)
+		}
 		c.Sample(map[string]interface{}{"mutation": label, "len": len(data), "head": fmt.Sprintf("%x", data[:vc06Min(len(data), 48)])})
 		b := NewBitmap()
 		var err error
 		if pv := vc06Try(func() { err = b.UnmarshalBinary(vc06Exact(data)) }); pv != nil {
 			t.Fatalf("UnmarshalBinary panics on %s (%d bytes %x): %v", label, len(data), vc06Head(data), pv)
 		}
-		c.Class(vc06ErrClass(err))
+		c.Class(vc06ErrLabel(err))
 		// non-trivial: the input got past the magic/length checks (it was accepted, or rejected by a deeper check)
 		c.NT(err == nil || len(data) >= 8)
 		if unmutated {
@@ -151,13 +142,16 @@ func TestVerifC06_ImportRoaringBits(t *testing.T) {
 		before := b.Slice()
 		c := vkit.NewCase().Key("import", clear, nexist, data)
 		defer c.Done()
-		c.Class("mut:" + label).ClassIf(clear, "clear")
+		for _, cl := range vc06LabelClasses(label) {
+			c.Class(cl)
+		}
+		c.ClassIf(clear, "clear")
 		c.Sample(map[string]interface{}{"mutation": label, "clear": clear, "len": len(data), "head": fmt.Sprintf("%x", data[:vc06Min(len(data), 48)])})
 		var err error
 		if pv := vc06Try(func() { _, _, err = b.ImportRoaringBits(vc06Exact(data), clear, false, 16) }); pv != nil {
 			t.Fatalf("ImportRoaringBits(clear=%v) panics on %s (%d bytes %x): %v", clear, label, len(data), vc06Head(data), pv)
 		}
-		c.Class(vc06ErrClass(err))
+		c.Class(vc06ErrLabel(err))
 		c.NT(err == nil || len(data) >= 8)
 		refVals, ref := vc06RefDecode(data)
 		c.Class("ref:" + ref)
